@@ -78,7 +78,7 @@ func (f *FS) Open(name string) (fs.File, error) {
 	}
 	nth := f.OpenCount[name]
 	readErrAt, eof, once, wrap, temp := -1, false, false, false, false
-	zeroAt, statErr := -1, false
+	zeroAt, statErr, closeErr := -1, false, false
 	for _, ft := range f.Faults {
 		if ft.File != name || (ft.Nth != 0 && ft.Nth != nth) {
 			continue
@@ -118,6 +118,8 @@ func (f *FS) Open(name string) (fs.File, error) {
 			readErrAt, eof = ft.At, true
 		case "zeroread":
 			zeroAt = ft.At
+		case "closeerr":
+			closeErr = true // closing the file reports an error (it is closed all the same)
 		case "staterr":
 			statErr = true // the file opens and reads; asking about it fails (a stale handle, an I/O error on the inode)
 		}
@@ -132,24 +134,25 @@ func (f *FS) Open(name string) (fs.File, error) {
 	if f.Nest > f.MaxNest {
 		f.MaxNest = f.Nest
 	}
-	return &file{fs: f, name: name, data: data, errAt: readErrAt, eofOnly: eof, once: once, wrap: wrap, temp: temp, zeroAt: zeroAt, statErr: statErr}, nil
+	return &file{fs: f, name: name, data: data, errAt: readErrAt, eofOnly: eof, once: once, wrap: wrap, temp: temp, zeroAt: zeroAt, statErr: statErr, closeErr: closeErr}, nil
 }
 
 type file struct {
-	fs      *FS
-	name    string
-	data    []byte
-	off     int
-	errAt   int
-	dir     bool
-	closed  bool
-	failed  bool
-	eofOnly bool // end the file at errAt without an error (reference runs)
-	once    bool // the read error is transient: returned once, then the file carries on
-	wrap    bool // the read error wraps io.EOF
-	temp    bool // the read error is a timeout that says it is temporary
-	zeroAt  int  // >= 0: the first Read issued at or beyond this offset returns 0, nil
-	statErr bool // Stat fails
+	fs       *FS
+	name     string
+	data     []byte
+	off      int
+	errAt    int
+	dir      bool
+	closed   bool
+	failed   bool
+	eofOnly  bool // end the file at errAt without an error (reference runs)
+	once     bool // the read error is transient: returned once, then the file carries on
+	wrap     bool // the read error wraps io.EOF
+	temp     bool // the read error is a timeout that says it is temporary
+	zeroAt   int  // >= 0: the first Read issued at or beyond this offset returns 0, nil
+	statErr  bool // Stat fails
+	closeErr bool // Close reports an error (the file is closed all the same)
 }
 
 func (x *file) Stat() (fs.FileInfo, error) {
@@ -224,6 +227,10 @@ func (x *file) Close() error {
 	x.closed = true
 	x.fs.Closes++
 	x.fs.Nest--
+	if x.closeErr {
+		x.fs.Fired["close_error"]++
+		return &fs.PathError{Op: "close", Path: x.name, Err: ErrStale}
+	}
 	return nil
 }
 
